@@ -53,6 +53,18 @@ CHECKS = {
              'opaque raw fields), TREs (captured payloads only), NITF 2.0 symbol/label specifics. Standard-side lengths are a hand '
              'transcription of MIL-STD-2500C. ' + TB,
         technique='Lean 4 proof (induction on widths/field lists) + reflection translator + byte-exact correspondence'),
+    'C03': dict(
+        text='Lean 4 theorems about the NITF layout arithmetic, unbounded in segment count and sizes: offsets computed as running sums '
+             'tile the file (each item starts where its subheader ends, each subheader where the previous item ends, the last item ends at '
+             'FL); the row segmentation covers [0, rows) by consecutive non-empty pieces within the row limit; decoding the '
+             'display/attachment chain with relative locations returns exactly the segmentation; the complexity-level ladders regenerated '
+             'from the current Python equal the MIL-STD-2500C table (bridge theorems over the translated code). Header and subheader lengths '
+             'rest on the C13 record-length theorems. Every written file is parsed by an independent parser written from the standard.',
+        design='DESIGN.md 3.3, 3.4, 6/C03',
+        note='proved: offsets/segmentation/ILOC/CLEVEL arithmetic. Correspondence: the writer bookkeeping (offsets, FL, ILOC chain, CLEVEL) '
+             'vs the model on generated SICD/SIDD files; search/oracle: harness/nitfparse.py (hand transcription of the standard). IGEOLO '
+             'numerics are checked numerically only; masked/blocked general-writer layouts are not generated. ' + TB,
+        technique='Lean 4 proof (induction on segment lists / fuel) + translator bridge for CLEVEL ladders + out-of-band NITF parser'),
 }
 
 
